@@ -58,12 +58,23 @@ def make_reference(rng, k, tier):
 
 def derive_samples(rng, contigs, k, ns):
     samples = []
+    # "hot" positions where every sample draws its own base: multi-allelic sites (three or more
+    # alleles, in any sample order) for the genotype numbering of the VCF
+    hot = []
+    for c in contigs:
+        hs, p = [], rng.randint(0, k)
+        while p < len(c):
+            hs.append(p)
+            p += k + 1 + rng.randint(0, k)          # further than k apart: each stays the centre of an intact window
+        hot.append(hs if rng.random() < 0.8 else [])
     for _ in range(ns):
         recs = []
-        for c in contigs:
+        for ci_, c in enumerate(contigs):
             s = list(c.upper().replace("N", rng.choice("ACGT")))
+            for p in hot[ci_]:
+                s[p] = rng.choice("ACGT")
             for p in range(len(s)):
-                if rng.random() < 0.015:
+                if rng.random() < 0.003:
                     s[p] = rng.choice("ACGT")
             s = "".join(s)
             if len(s) > 2 * k and rng.random() < 0.25:            # indel
@@ -100,7 +111,7 @@ def run_cases(run, tier, seed, tag, with_ref_events=True):
             rc = rng.random() < 0.75
             contigs = make_reference(rng, k, tier)
             cnames = ["c%d" % i for i in range(len(contigs))]
-            ns = rng.randint(1, 4)
+            ns = rng.randint(1, 6)
             samples = derive_samples(rng, contigs, k, ns)
             names = ["s%d_%d" % (ci, i) for i in range(ns)]
             ref = os.path.join(sb.dir, "ref%d.fa" % ci)
